@@ -640,6 +640,23 @@ package protocol
 //@   requires t != nil
 //@   assert_call baseUnderlay.Close: ghost(deadl) == 1
 //@
+//@ // The multiplexer closes exactly the underlays in its list when a client or server stops, so
+//@ // house-keeping must not lose a live one (C15): moving the list to a smaller backing array
+//@ // keeps its length and every element.
+//@ func (m *Mux) cleanUnderlay(alsoDisableIdleOrOverloadUnderlay bool)
+//@   property C15
+//@   mode int
+//@   partial
+//@   posts_only
+//@   noframe
+//@   may_panic
+//@   requires m != nil
+//@   assert_at "m.underlays = reclaimed": len(reclaimed) == len(m.underlays) && forall(i, 0, len(reclaimed), reclaimed[i] == m.underlays[i])
+//@   loop 1:
+//@     invariant true
+//@   loop 2:
+//@     invariant true
+//@
 //@ func (b *baseUnderlay) Close() (err error)
 //@   trusted closes every session through sync.Map.Range and waits for their goroutines (schedules: outside the technique)
 //@
